@@ -765,6 +765,24 @@ def _orient_ifs(fn, rf, log, q):
                                        % (q, t))
                             changed = True
                             break
+                    if not has_else and not jump and not st.orelse and \
+                            len(st.body) == 1 and blk[i + 1:] and (
+                                (isinstance(st.body[0], ast.Return) and (
+                                    st.body[0].value is None or (isinstance(
+                                        st.body[0].value, ast.Constant) and
+                                        st.body[0].value.value is None))
+                                 and blk is fn.body) or
+                                (isinstance(st.body[0], ast.Continue) and
+                                 _enclosing_jump(fn, blk) is not None)):
+                        # `if not c: return` + rest  <-  `if c: rest`
+                        rest = blk[i + 1:]
+                        del blk[i + 1:]
+                        st.test = negate(st.test)
+                        st.body = rest
+                        log.append('%s: early exit `%s` restored to a '
+                                   'guarded block' % (q, t))
+                        changed = True
+                        break
                     if has_else and not st.orelse and _jump(st.body) and \
                             blk[i + 1:]:
                         # `if not c: jump` + rest  <-  `if c: rest else: jump`
@@ -908,9 +926,12 @@ def _loops_to_reference(fn, rf, log, q):
                 and all(isinstance(e, ast.Name) for e in ztg.elts):
             hdr = None
             for a_ in zc.args:
-                h_ = 'range(len(%s))' % _n(a_)
-                if h_ in ref_iters and have[h_] < len(ref_iters[h_]):
-                    hdr = h_
+                for h_ in ('range(len(%s))' % _n(a_),
+                           'range(%s.shape[0])' % _n(a_)):
+                    if h_ in ref_iters and have[h_] < len(ref_iters[h_]):
+                        hdr = h_
+                        break
+                if hdr is not None:
                     break
             elts = [e.id for e in ztg.elts]
             body_stores = _names(ast.Module(body=n.body, type_ignores=[]),
@@ -961,8 +982,8 @@ def _loops_to_reference(fn, rf, log, q):
         if keyed:
             cands = [(s, ref_iters.get(s))]
         else:
-            cands = [('range(len(%s))' % s, ref_iters.get(
-                'range(len(%s))' % s))]
+            cands = [(h_, ref_iters.get(h_)) for h_ in (
+                'range(len(%s))' % s, 'range(%s.shape[0])' % s)]
         cands = [(h, t) for h, t in cands if t and have[h] < len(t)]
         if not cands:
             continue
